@@ -293,7 +293,7 @@ theorem singleton_setTestSet (op : Op) (a c : TSel) (r : Res) (s1 s2 : Bool) :
     | (simp [setTestSet, setRelSetPos, test, relSetPos, relPos, Op.pick, Op.neg, minBegin, maxEnd,
           TSet.leftmost, TSet.rightmost, leftmostScan, rightmostScan] <;> (first | (intro h; exact h.symm) | (intro h h2; exact h h2.symm)))
 
-/-- EQUALS between two sets holds both ways round (since 2026-09: the code checks both inclusions) -/
+/-- EQUALS between two sets holds both ways round (since 2026-09: the code checks both inclusions, and only those) -/
 theorem set_equals_symm (s t : TSet) (r : Res) (al : Bool) (hs : s.items ≠ []) (ht : t.items ≠ []) :
     setTestSet (.equals al false) s t r = setTestSet (.equals al false) t s r := by
   have h1 : s.items.isEmpty = false := by cases hx : s.items with | nil => exact absurd hx hs | cons _ _ => rfl
@@ -303,10 +303,17 @@ theorem set_equals_symm (s t : TSet) (r : Res) (al : Bool) (hs : s.items ≠ [])
   rw [e1, e2]
   simp only [setRelSetPos]
   rw [Bool.eq_iff_iff]
-  simp only [Bool.and_eq_true, decide_eq_true_eq]
+  simp only [Bool.and_eq_true]
   constructor
-  · rintro ⟨⟨hl, ha⟩, hb⟩; exact ⟨⟨hl.symm, hb⟩, ha⟩
-  · rintro ⟨⟨hl, ha⟩, hb⟩; exact ⟨⟨hl.symm, hb⟩, ha⟩
+  · rintro ⟨ha, hb⟩; exact ⟨hb, ha⟩
+  · rintro ⟨ha, hb⟩; exact ⟨hb, ha⟩
+
+/-- EQUALS between two sets does not count stored items: a set that holds a selection twice equals the set that holds
+it once -/
+theorem set_equals_ignores_repetition (a : TSel) (r : Res) (al : Bool) :
+    setTestSet (.equals al false) ⟨[a, a], false⟩ ⟨[a], false⟩ r = true ∧
+    setTestSet (.equals al false) ⟨[a], false⟩ ⟨[a, a], false⟩ r = true := by
+  cases al <;> simp [setTestSet, setRelSetPos, relSetPos, relPos, Op.neg]
 
 /-! ### What does not hold on sets
 
